@@ -1,4 +1,5 @@
-"""Claims per property (source of MANIFEST.json; regenerate with tools/gen_manifest.py)."""
+"""RESULT-INTEGRITY-NOTE added to every claim text.
+Claims per property (source of MANIFEST.json; regenerate with tools/gen_manifest.py)."""
 
 NOTE_BASE = ("Trusted: rustc's type checking/name resolution/MIR construction; documented ndarray 0.16 semantics "
              "(swap, Index bounds checks, Zip/iter pair by logical index, disjoint lanes, from_shape_ptr); std; noisy_float; "
@@ -17,7 +18,8 @@ CLAIMS = {
              "strategy formulas by linear bounds over the element type's range (R26): results inside [lower, higher], exact coincidence for "
              "equal neighbours, representability of every intermediate for unsigned/signed/float families - the last fails for signed and float "
              "lanes (defect D8, a known finding with failing inputs). Not decided: floating-point "
-             "rounding of q·(N−1) and of the formulas, the 'within one unit' clause for integer element types, representability.",
+             "rounding of q·(N−1) and of the formulas, the 'within one unit' clause for integer element types, representability."
+             " Result integrity (R30): what each routine hands back is the value its verified core computed – on every success path, with nothing applied afterwards, and reached for every argument in the property's range (guard direction R31, termination of the cursor loops R32 where applicable); see DESIGN §7.x for the mutation sweeps that motivated these clauses.",
         design_ref="DESIGN.md §4 C01",
         note=NOTE_BASE + " sympy for the strategy formulas.",
         technique="static analysis: symbolic term extraction of the interpolation formulas + delegation/shape/pairing rules + summary-based abstract execution of the bulk selection, over MIR",
@@ -28,7 +30,8 @@ CLAIMS = {
              "ndarray/std API outside the one audited helper (R1, all call sites), axis parameters passed through unchanged (R8), "
              "zip operands are undisturbed logical producers (R9), each extension trait implemented once generically in the storage "
              "type (IMPL); caller callbacks are driven in logical order and no closure driven by a layout-ordered ndarray traversal appends to "
-             "a captured collection (R23). Decides the structural condition, not the numerical roundoff clause.",
+             "a captured collection (R23). Decides the structural condition, not the numerical roundoff clause."
+             " Result integrity (R30): what each routine hands back is the value its verified core computed – on every success path, with nothing applied afterwards, and reached for every argument in the property's range (guard direction R31, termination of the cursor loops R32 where applicable); see DESIGN §7.x for the mutation sweeps that motivated these clauses.",
         design_ref="DESIGN.md §4 C20",
         note=NOTE_BASE,
         technique="static analysis: who-may-call + dataflow rules over type-checked MIR (custom rustc_private driver)",
@@ -41,7 +44,8 @@ CLAIMS = {
              "rejection direction for every input, pivot sequence and build profile; the converse (in-range calls never panic) is decided for "
              "the leaf functions by the zone analysis (R18) and for both recursive selection routines by R18s: under the in-range "
              "precondition every panic edge met by the abstract executions of R24/R25 (bounds checks, slicing, split_at_mut, overflow and "
-             "debug assertions, empty gen_range, callee preconditions) is refuted by the reached state.",
+             "debug assertions, empty gen_range, callee preconditions) is refuted by the reached state."
+             " Result integrity (R30): what each routine hands back is the value its verified core computed – on every success path, with nothing applied afterwards, and reached for every argument in the property's range (guard direction R31, termination of the cursor loops R32 where applicable); see DESIGN §7.x for the mutation sweeps that motivated these clauses.",
         design_ref="DESIGN.md §4 C16",
         note=NOTE_BASE,
         technique="static analysis: must-pass-through (path) rule over release/dev MIR CFGs with delegation summaries",
@@ -51,7 +55,8 @@ CLAIMS = {
         text="Static decision-table conformance: the ordered error exits (guard class, subjects, variant, payload provenance) of all 49 "
              "fallible routines are extracted from MIR (helpers inlined, `?`/From applied symbolically) and compared with the table "
              "transcribed from the property; panics preceding documented error exits are reported. Guards are pure functions of shapes "
-             "and q, so a matched row holds for all inputs. One known finding (cov on 0xk input, pinned by a test).",
+             "and q, so a matched row holds for all inputs. One known finding (cov on 0xk input, pinned by a test)."
+             " Result integrity (R30): what each routine hands back is the value its verified core computed – on every success path, with nothing applied afterwards, and reached for every argument in the property's range (guard direction R31, termination of the cursor loops R32 where applicable); see DESIGN §7.x for the mutation sweeps that motivated these clauses.",
         design_ref="DESIGN.md §4 C17",
         note=NOTE_BASE,
         technique="static analysis: guard-sequence extraction from MIR + decision table",
@@ -64,7 +69,8 @@ CLAIMS = {
              "Some (R11), no randomness / no layout API in maybe_nan (R14, R1), and the compaction's postcondition proved by candidate "
              "segment invariants (R21): every return is the prefix view[..x] with no missing value before x and only missing values from x "
              "on – with the swap-only effect discipline this is 'exactly the non-missing elements, length = their count'; 'missing' is the "
-             "element type's own test in all 14 impls (R29: float is_nan(self), Option is_none(self)).",
+             "element type's own test in all 14 impls (R29: float is_nan(self), Option is_none(self))."
+             " Result integrity (R30): what each routine hands back is the value its verified core computed – on every success path, with nothing applied afterwards, and reached for every argument in the property's range (guard direction R31, termination of the cursor loops R32 where applicable); see DESIGN §7.x for the mutation sweeps that motivated these clauses.",
         design_ref="DESIGN.md §4 C04",
         note=NOTE_BASE,
         technique="static analysis: provenance + dominance rules over MIR, unsafe inventory from HIR",
@@ -75,7 +81,8 @@ CLAIMS = {
              "centred rows D = X − mean over the observation axis, Gram product D·Dᵀ of one D (hence symmetric by construction), elementwise "
              "division by (n − ddof), correlation = cov(ddof₀)/(σσᵀ) with the same ddof₀ – and the constant observation axis. The roundoff "
              "bounds, the [-1,1] range, the unit diagonal up to roundoff and the affine invariances are numerical statements about runtime "
-             "values that static analysis cannot decide; they are not claimed.",
+             "values that static analysis cannot decide; they are not claimed."
+             " Result integrity (R30): what each routine hands back is the value its verified core computed – on every success path, with nothing applied afterwards, and reached for every argument in the property's range (guard direction R31, termination of the cursor loops R32 where applicable); see DESIGN §7.x for the mutation sweeps that motivated these clauses.",
         design_ref="DESIGN.md §4 C08",
         note=NOTE_BASE,
         technique="static analysis: structural formula conformance of whole-array expressions on MIR",
@@ -91,7 +98,8 @@ CLAIMS = {
              "right ≥ w on every path and case; the induction hypothesis' precondition (strictly increasing, in bounds after rebasing by "
              "exactly the sub-view start, aligned slices) is proved at both recursive calls; the wrapper pairs indexes[t] with values[t] in "
              "increasing index order (R12 sorted+deduped, R5 bounds). Only swaps move data (R4), so these are the elements a full sort "
-             "places there; the pivot index is an unconstrained value in both proofs.",
+             "places there; the pivot index is an unconstrained value in both proofs."
+             " Result integrity (R30): what each routine hands back is the value its verified core computed – on every success path, with nothing applied afterwards, and reached for every argument in the property's range (guard direction R31, termination of the cursor loops R32 where applicable); see DESIGN §7.x for the mutation sweeps that motivated these clauses.",
         design_ref="DESIGN.md §4 C02",
         note=NOTE_BASE + " Ord is assumed a lawful total order.",
         technique="static analysis: summary-based abstract execution of all MIR paths (zone + array-segment predicates + symbolic order relations; representative-element quantified facts for the bulk form)",
@@ -108,7 +116,8 @@ CLAIMS = {
              "bulk selection proved) - hence permutation invariance, and with bracketing and the monotone positions monotonicity in q also "
              "across segments. Relabelling invariance of Lower/Higher/Nearest is witnessed at the type level (thorough tier: they and the "
              "selection compile for an element type offering only Ord + Clone). Overflow of intermediates breaks the bracketing for signed and "
-             "float lanes: defect D8, known finding.",
+             "float lanes: defect D8, known finding."
+             " Result integrity (R30): what each routine hands back is the value its verified core computed – on every success path, with nothing applied afterwards, and reached for every argument in the property's range (guard direction R31, termination of the cursor loops R32 where applicable); see DESIGN §7.x for the mutation sweeps that motivated these clauses.",
         design_ref="DESIGN.md §4 C19",
         note=NOTE_BASE + " sympy at the endpoints; Ord assumed a lawful total order.",
         technique="static analysis: monotonicity typing and linear-bound range analysis of extracted formula terms + summary-based abstract execution of the selection + type-level witness",
@@ -118,7 +127,8 @@ CLAIMS = {
         text="Static proof of an effect discipline sufficient for 'in-place routines only permute their lanes': over the call graph "
              "reachable from the mutating entry points, every use of a caller-owned mutable array handle is ArrayBase::swap, a re-view, a "
              "traversal whose closure is checked, a checked family member, the audited raw helper (R2) or the user's callback; no store "
-             "through an element reference of caller data. Conservative: a clone-and-assign rewrite would be flagged.",
+             "through an element reference of caller data. Conservative: a clone-and-assign rewrite would be flagged."
+             " Result integrity (R30): what each routine hands back is the value its verified core computed – on every success path, with nothing applied afterwards, and reached for every argument in the property's range (guard direction R31, termination of the cursor loops R32 where applicable); see DESIGN §7.x for the mutation sweeps that motivated these clauses.",
         design_ref="DESIGN.md §4 C03",
         note=NOTE_BASE,
         technique="static analysis: effect/ownership discipline over the MIR call graph",
@@ -129,7 +139,8 @@ CLAIMS = {
              "element comparison is partial_cmp→UndefinedOrder via `?`; the scan is a fresh complete traversal of the receiver (its iterator is "
              "never advanced before the scan, so a lone NaN is compared too); "
              "replacement predicate new<best for min forms / new>best for max forms, arg and value forms agreeing; arg forms return the "
-             "indexed_iter index updated together with the value. Does not decide that the scan result is extremal for all value patterns.",
+             "indexed_iter index updated together with the value. Does not decide that the scan result is extremal for all value patterns."
+             " Result integrity (R30): what each routine hands back is the value its verified core computed – on every success path, with nothing applied afterwards, and reached for every argument in the property's range (guard direction R31, termination of the cursor loops R32 where applicable); see DESIGN §7.x for the mutation sweeps that motivated these clauses.",
         design_ref="DESIGN.md §4 C05",
         note=NOTE_BASE,
         technique="static analysis: idiom + sibling-agreement rules over MIR (guard table, comparator direction table)",
@@ -141,7 +152,8 @@ CLAIMS = {
              "forms are strip∘plain with the caller's axis/q/strategy; comparator direction and EmptyInput rule of the skip-NaN extrema; "
              "stripped lanes sound for every stride (R2/R3); NotNone<T> is a transparent wrapper – each of its 40 trait methods is T's own method "
              "of the same name, none left to a trait default (R28); 'missing' is the type's own is_nan/is_none (R29). Does not decide value "
-             "equality with the filtered plain operation beyond these.",
+             "equality with the filtered plain operation beyond these."
+             " Result integrity (R30): what each routine hands back is the value its verified core computed – on every success path, with nothing applied afterwards, and reached for every argument in the property's range (guard direction R31, termination of the cursor loops R32 where applicable); see DESIGN §7.x for the mutation sweeps that motivated these clauses.",
         design_ref="DESIGN.md §4 C14",
         note=NOTE_BASE,
         technique="static analysis: branch-discipline (dominance) rules over MIR closures",
@@ -153,7 +165,8 @@ CLAIMS = {
              "self.grid.index_of(observation), nothing written or called on the reject path, counts = zeros(grid.shape()) of the stored "
              "grid, matrix form inserts each row of axis 0 once and ignores rejects, coordinate j paired with projection j after an arity "
              "assert; the lookup itself is the left-closed/right-open decision tree for every edge-set size incl. 0 and 1 (R20), so a miss is a "
-             "quiet None. Order independence follows from commuting increments.",
+             "quiet None. Order independence follows from commuting increments."
+             " Result integrity (R30): what each routine hands back is the value its verified core computed – on every success path, with nothing applied afterwards, and reached for every argument in the property's range (guard direction R31, termination of the cursor loops R32 where applicable); see DESIGN §7.x for the mutation sweeps that motivated these clauses.",
         design_ref="DESIGN.md §4 C11",
         note=NOTE_BASE,
         technique="static analysis: field-ownership, exactly-once dataflow and dominance rules over MIR",
@@ -163,7 +176,8 @@ CLAIMS = {
         text="Static check that (a) every Edges value is sorted+deduplicated by construction and immutable afterwards (constructor "
              "dominance, private fields, no &mut self methods, single construction sites), (b) all accessors of Edges/Bins/Grid go through "
              "the one binary-search primitive, Bins::len arms are 0→0, n→n−1, and (c) the decision tree of Edges::indices_of extracted "
-             "from MIR equals the left-closed/right-open table on every (variant, index, n≤8) case. Trusts std's binary_search contract.",
+             "from MIR equals the left-closed/right-open table on every (variant, index, n≤8) case. Trusts std's binary_search contract."
+             " Result integrity (R30): what each routine hands back is the value its verified core computed – on every success path, with nothing applied afterwards, and reached for every argument in the property's range (guard direction R31, termination of the cursor loops R32 where applicable); see DESIGN §7.x for the mutation sweeps that motivated these clauses.",
         design_ref="DESIGN.md §4 C13",
         note=NOTE_BASE,
         technique="static analysis: constructor-dominance/ownership rules + decision-tree extraction compared with a specification table",
@@ -175,7 +189,8 @@ CLAIMS = {
              "extracted from MIR as a symbolic term and compared by a CAS with Σ(a−b)², Σ|a−b|, max|a−b| (running max from 0), +1 on a==b; "
              "symmetry and zero-on-equal are proved on the extracted terms; derived measures are the documented functions of the "
              "primitives; in PSNR the peak enters only as maxv.to_f64() (no squaring in the element type). Exact for integers barring overflow; "
-             "float roundoff is not decided.",
+             "float roundoff is not decided."
+             " Result integrity (R30): what each routine hands back is the value its verified core computed – on every success path, with nothing applied afterwards, and reached for every argument in the property's range (guard direction R31, termination of the cursor loops R32 where applicable); see DESIGN §7.x for the mutation sweeps that motivated these clauses.",
         design_ref="DESIGN.md §4 C09",
         note=NOTE_BASE + " sympy is trusted for polynomial/elementary identities.",
         technique="static analysis: symbolic kernel-term extraction from MIR + CAS identity check; pairing/guard rules",
@@ -185,7 +200,8 @@ CLAIMS = {
         text="Static check of entropy/cross-entropy/KL: explicit `== 0 ⇒ 0` branch on the multiplicand dominating every ln (R10), kernel "
              "terms extracted from MIR equal x·ln x, p·ln q, p·ln(q/p) (CAS), every success value is the negated plain sum (no clamping), operands paired by logical "
              "index in the documented order, guards per the decision table; identities KL(p,p)=0 and H(p,q)=H(p)+KL(p,q) proved termwise "
-             "on the extracted terms. Inequalities (KL ≥ 0, H ≤ ln n) and roundoff are not decided.",
+             "on the extracted terms. Inequalities (KL ≥ 0, H ≤ ln n) and roundoff are not decided."
+             " Result integrity (R30): what each routine hands back is the value its verified core computed – on every success path, with nothing applied afterwards, and reached for every argument in the property's range (guard direction R31, termination of the cursor loops R32 where applicable); see DESIGN §7.x for the mutation sweeps that motivated these clauses.",
         design_ref="DESIGN.md §4 C10",
         note=NOTE_BASE + " sympy is trusted for elementary identities (positive symbols).",
         technique="static analysis: dominance rule + symbolic kernel-term extraction from MIR + CAS identity check",
@@ -196,7 +212,8 @@ CLAIMS = {
              "guards (R6), and symbolic extraction of each routine's value from MIR compared by a CAS with the definition in exact arithmetic "
              "(Σx/n with the type's own Div, Σd·w from zero, weighted_sum/Σw, recip(mean(recip)), exp(mean(ln))); per-axis forms are "
              "operation-identical lane kernels with the caller's weights. Decides the exact-arithmetic clause and the skeleton that the "
-             "standard summation bound needs; does not decide the float error bound itself or overflow.",
+             "standard summation bound needs; does not decide the float error bound itself or overflow."
+             " Result integrity (R30): what each routine hands back is the value its verified core computed – on every success path, with nothing applied afterwards, and reached for every argument in the property's range (guard direction R31, termination of the cursor loops R32 where applicable); see DESIGN §7.x for the mutation sweeps that motivated these clauses.",
         design_ref="DESIGN.md §4 C06",
         note=NOTE_BASE + " sympy is trusted for rational/elementary identities; ndarray's sum/mean are Σ and Σ/len.",
         technique="static analysis: symbolic reduction-skeleton and term extraction from MIR + CAS; kernel-equality between siblings",
@@ -207,7 +224,8 @@ CLAIMS = {
              "CAS induction over abstract sums to equal Σw(x−x̄)²/(Σw−ddof) in exact arithmetic (so ddof reaches the denominator); kurtosis "
              "and skewness formulas; order 0/1 are the exact constants; per-axis variants map the same kernel with the caller's weights "
              "and ddof; std = sqrt∘var; guards and pairing. Forward-error bounds, the sign guarantee and the general-order pipeline's "
-             "numerics are not decided.",
+             "numerics are not decided."
+             " Result integrity (R30): what each routine hands back is the value its verified core computed – on every success path, with nothing applied afterwards, and reached for every argument in the property's range (guard direction R31, termination of the cursor loops R32 where applicable); see DESIGN §7.x for the mutation sweeps that motivated these clauses.",
         design_ref="DESIGN.md §4 C07",
         note=NOTE_BASE + " sympy is trusted for rational identities.",
         technique="static analysis: loop-recurrence extraction from MIR + CAS induction; delegation/constant-arm rules",
@@ -219,7 +237,8 @@ CLAIMS = {
              "equal widths (CAS); every builder is constructed under the guard width>0 ∧ min<max; strategies pass a.min()/a.max() in order "
              "and delegate; error rows. With the loop's exit test `edge(n) <= max` and the +1 counter this gives, in exact arithmetic, "
              "last edge > max and ≤ max + width. Necessary conditions of the property; float rounding of the edges and termination for "
-             "widths below one ulp are not decided.",
+             "widths below one ulp are not decided."
+             " Result integrity (R30): what each routine hands back is the value its verified core computed – on every success path, with nothing applied afterwards, and reached for every argument in the property's range (guard direction R31, termination of the cursor loops R32 where applicable); see DESIGN §7.x for the mutation sweeps that motivated these clauses.",
         design_ref="DESIGN.md §4 C12",
         note=NOTE_BASE,
         technique="static analysis: sibling-agreement on extracted operation DAGs + constructor-dominance rules",
@@ -230,7 +249,8 @@ CLAIMS = {
              "index_axis_move(axis,0); 1-D wrappers = axis forms at Axis(0); per-axis weighted sum/mean/var/std map operation-identical "
              "kernels with the caller's arguments; central_moment and central_moments share canonical shifted moments, correction term, "
              "prefix ..=k and kernels; the unchecked bulk selection always receives a sorted+deduped vector; j-th output ↔ j-th q with "
-             "matching push/lookup predicates. Does not decide that a bulk selection returns for each index what a single selection would.",
+             "matching push/lookup predicates. Does not decide that a bulk selection returns for each index what a single selection would."
+             " Result integrity (R30): what each routine hands back is the value its verified core computed – on every success path, with nothing applied afterwards, and reached for every argument in the property's range (guard direction R31, termination of the cursor loops R32 where applicable); see DESIGN §7.x for the mutation sweeps that motivated these clauses.",
         design_ref="DESIGN.md §4 C18",
         note=NOTE_BASE,
         technique="static analysis: delegation table, canonical-form equality of sibling pipelines, typestate of the index vector",
@@ -241,7 +261,8 @@ CLAIMS = {
              "interpretation discharging every overflow assert and Index/swap precondition; (b) the value-level postcondition – a[k] is "
              "the pivot value, everything before k strictly smaller, everything after ≥ – by checking candidate segment invariants "
              "(Houdini) along all loop-free path segments and all return paths, for every array content; (c) only swaps move data, so k "
-             "is the rank. Assumes Ord is a lawful total order; 'all 1-D view strides' follows from the code only using the logical API.",
+             "is the rank. Assumes Ord is a lawful total order; 'all 1-D view strides' follows from the code only using the logical API."
+             " Result integrity (R30): what each routine hands back is the value its verified core computed – on every success path, with nothing applied afterwards, and reached for every argument in the property's range (guard direction R31, termination of the cursor loops R32 where applicable); see DESIGN §7.x for the mutation sweeps that motivated these clauses.",
         design_ref="DESIGN.md §4 C15",
         note=NOTE_BASE + " Callee contracts: len() ≤ isize::MAX; Index/swap panic iff index ≥ len.",
         technique="static analysis: abstract interpretation (zones) + candidate-invariant checking over array-segment predicates on MIR",
